@@ -143,6 +143,9 @@ func (p *Program) computeFacts(fn *ssa.Function) *funcFacts {
 				}
 				for _, f := range p.edgeFacts(pr, b) {
 					cand[f.key] = f
+					for _, g := range p.phiImplied(ff, top, f, 0) {
+						cand[g.key] = g
+					}
 				}
 				if first {
 					in = cand
@@ -203,6 +206,9 @@ func (p *Program) FactsOnEdge(from, to *ssa.BasicBlock) []Fact {
 	}
 	for _, f := range p.edgeFacts(from, to) {
 		fs[f.key] = f
+		for _, g := range p.phiImplied(ff, map[*ssa.BasicBlock]bool{}, f, 0) {
+			fs[g.key] = g
+		}
 	}
 	return fs.list()
 }
@@ -803,4 +809,68 @@ func zeroConst(t types.Type) ssa.Value {
 		}
 	}
 	return ssa.NewConst(nil, t)
+}
+
+// phiImplied: facts implied by a fact whose condition is a boolean Phi (a guard that was
+// materialised in a variable, e.g. `stale := a == nil; if !stale { stale = x != y }; if stale {…}`).
+// If the phi evaluated to f.Pol, control entered the phi's block through an incoming edge whose
+// value can equal f.Pol; the implied facts are those common to all such edges: the facts at the end
+// of the predecessor, the facts of the edge itself and (for non-constant edge values) the fact that
+// the edge value equals f.Pol.
+func (p *Program) phiImplied(ff *funcFacts, top map[*ssa.BasicBlock]bool, f Fact, depth int) []Fact {
+	ph, ok := f.Cond.(*ssa.Phi)
+	if !ok || depth > 3 {
+		return nil
+	}
+	if b, isBasic := ph.Type().Underlying().(*types.Basic); !isBasic || b.Info()&types.IsBoolean == 0 {
+		return nil
+	}
+	blk := ph.Block()
+	var common factSet
+	first := true
+	for i, e := range ph.Edges {
+		if i >= len(blk.Preds) {
+			return nil
+		}
+		pr := blk.Preds[i]
+		if cb, isConst := constBool(e); isConst && cb != f.Pol {
+			continue // this edge cannot have produced the value
+		}
+		if top[pr] {
+			continue // not yet computed: no constraint (optimistic, refined by the fixpoint)
+		}
+		cand := factSet{}
+		for k, g := range ff.out[pr] {
+			cand[k] = g
+		}
+		for _, g := range p.edgeFacts(pr, blk) {
+			cand[g.key] = g
+		}
+		if _, isConst := constBool(e); !isConst {
+			g := p.mkFact(e, f.Pol)
+			// the edge is infeasible for this value if the opposite is already known on it
+			opp := p.mkFact(e, !f.Pol)
+			if _, contradiction := cand[opp.key]; contradiction {
+				continue
+			}
+			cand[g.key] = g
+			for _, h := range p.phiImplied(ff, top, g, depth+1) {
+				cand[h.key] = h
+			}
+		}
+		if first {
+			common = cand
+			first = false
+		} else {
+			for k := range common {
+				if _, ok := cand[k]; !ok {
+					delete(common, k)
+				}
+			}
+		}
+	}
+	if first {
+		return nil
+	}
+	return common.list()
 }
